@@ -1697,6 +1697,9 @@ def mapbc_expect(toks):
 
 def gen_mapbc(rng, tier):
     ops = []
+    # every viscous code and its neighbours once: a change of any single code of ref_phys_wall_distance_bc shows
+    codes = sorted(set(WALL_CODES + [c + d for c in WALL_CODES for d in (-1, 1)] + OTHER_CODES))
+    ops.append('mapbc | ' + ' '.join(write_mapbc([[i + 1, c, 'patch'] for i, c in enumerate(codes)])))
     for _ in range(6 if tier == 'quick' else 30):
         n = rng.choice([1, 2, 4, 7])
         ids = rng.sample(range(1, 40), n)
